@@ -1,6 +1,6 @@
 (* Stream proofs, part 3: the source-map driven splitters (L5). *)
 From RS Require Import Base.Prelude Base.Text Rope.RopeModel Codec.Vlq Codec.CodecSpec
-  Stream.Types Stream.Leaves Stream.Replace Stream.Tree Checkers.ChkTree
+  Stream.Types Stream.Leaves Stream.Replace Stream.Tree Sem.Attr Checkers.ChkTree
   Proofs.StreamText Proofs.StreamLeaves.
 Require Import Lia List.
 
@@ -1110,6 +1110,198 @@ Proof.
 Qed.
 
 (* ------------------------------------------------------------------ *)
+(* valid UTF-8 texts satisfy lines_ok                                   *)
+(* ------------------------------------------------------------------ *)
+(* no continuation byte at the start of the text or right after a line break *)
+Fixpoint okc (t : text) (at_start : bool) : bool :=
+  match t with
+  | [] => true
+  | b :: t' => (if at_start then negb (is_cont b) else true) && okc t' (b =? NL)
+  end.
+
+Lemma okc_weaken t : okc t true = true -> okc t false = true.
+Proof.
+  destruct t as [|b t]; [reflexivity|]. cbn [okc]. intros H. apply andb_true_iff in H. apply H.
+Qed.
+
+Lemma okc_cons b t : is_cont b = false -> okc t true = true -> okc (b :: t) true = true.
+Proof.
+  intros Hb Ht. cbn [okc]. rewrite Hb. cbn [negb andb]. destruct (b =? NL); [exact Ht|apply okc_weaken; exact Ht].
+Qed.
+
+Lemma okc_skip b t : okc t true = true -> okc (b :: t) false = true.
+Proof.
+  intros Ht. cbn [okc andb]. destruct (b =? NL); [exact Ht|apply okc_weaken; exact Ht].
+Qed.
+
+Lemma starts_okb_push c cur :
+  (if is_nil cur then negb (is_cont c) else true) = true ->
+  starts_okb (rev cur) = true -> starts_okb (rev (c :: cur)) = true.
+Proof.
+  intros H1 H2. cbn [rev]. destruct cur as [|x cur]; [cbn in *; exact H1|].
+  destruct (rev (x :: cur)) as [|y r] eqn:E.
+  - exfalso. apply (rev_nonempty (x :: cur)); [discriminate|exact E].
+  - exact H2.
+Qed.
+
+Lemma okc_lines t : forall cur, okc t (is_nil cur) = true -> starts_okb (rev cur) = true ->
+  forallb starts_okb (split_lines_aux t cur) = true.
+Proof.
+  induction t as [|c t IH]; intros cur H Hcur.
+  - cbn [split_lines_aux]. destruct cur as [|x cur]; [reflexivity|]. cbn [forallb]. rewrite Hcur. reflexivity.
+  - cbn [okc] in H. apply andb_true_iff in H. destruct H as [H1 H2].
+    pose proof (starts_okb_push c cur H1 Hcur) as Hpush.
+    cbn [split_lines_aux]. destruct (c =? NL) eqn:E.
+    + cbn [forallb]. rewrite Hpush. cbn [andb]. apply IH; [exact H2|reflexivity].
+    + apply IH; [exact H2|exact Hpush].
+Qed.
+
+Lemma not_cont_lt b : b < 128 -> is_cont b = false.
+Proof. apply ascii_not_cont. Qed.
+
+Lemma not_cont_ge b : 192 <= b -> is_cont b = false.
+Proof. intros H. unfold is_cont. apply andb_false_iff. right. apply N.ltb_ge. exact H. Qed.
+
+Lemma in_range_ge lo hi b : in_range lo hi b = true -> lo <= b.
+Proof. unfold in_range. intros H. apply andb_true_iff in H. destruct H as [H _]. apply N.leb_le. exact H. Qed.
+
+Lemma okc_lead b t : 192 <= b -> okc t false = true -> okc (b :: t) true = true.
+Proof.
+  intros Hb Ht. cbn [okc]. rewrite (not_cont_ge b Hb). cbn [negb andb].
+  replace (b =? NL) with false by (symmetry; apply N.eqb_neq; unfold NL; lia). exact Ht.
+Qed.
+
+Lemma okc_skip_ge b t : 128 <= b -> okc t false = true -> okc (b :: t) false = true.
+Proof.
+  intros Hb Ht. cbn [okc andb].
+  replace (b =? NL) with false by (symmetry; apply N.eqb_neq; unfold NL; lia). exact Ht.
+Qed.
+
+Ltac cont_ge :=
+  match goal with
+  | E : in_range _ _ ?b = true |- 128 <= ?b => apply in_range_ge in E; lia
+  end.
+
+Ltac split_andb :=
+  repeat match goal with
+         | H : (_ && _) = true |- _ => apply andb_true_iff in H; destruct H
+         end.
+
+Ltac lead_ge :=
+  match goal with
+  | E : in_range _ _ ?b = true |- 192 <= ?b => apply in_range_ge in E; lia
+  | E : (?b =? _) = true |- 192 <= ?b => apply N.eqb_eq in E; lia
+  | E : (_ || _) = true |- 192 <= ?b =>
+    apply orb_true_iff in E; destruct E as [E|E]; apply in_range_ge in E; lia
+  end.
+
+Lemma valid_okc : forall f t, valid_utf8_fuel f t = true -> okc t true = true.
+Proof.
+  induction f as [|f IH]; intros t H.
+  - destruct t; [reflexivity|discriminate].
+  - destruct t as [|b0 t1]; [reflexivity|]. cbn [valid_utf8_fuel] in H.
+    destruct (b0 <? 128) eqn:E0.
+    { apply N.ltb_lt in E0. apply okc_cons; [apply not_cont_lt; exact E0|apply IH; exact H]. }
+    destruct (in_range 194 223 b0) eqn:E1.
+    { destruct t1 as [|b1 t2]; [discriminate|]. split_andb.
+      apply okc_lead; [lead_ge|]. apply okc_skip_ge; [cont_ge|]. apply okc_weaken. apply IH. assumption. }
+    destruct (b0 =? 224) eqn:E2.
+    { destruct t1 as [|b1 [|b2 t3]]; try discriminate. split_andb.
+      apply okc_lead; [lead_ge|]. do 2 (apply okc_skip_ge; [cont_ge|]). apply okc_weaken. apply IH. assumption. }
+    destruct (in_range 225 236 b0 || in_range 238 239 b0) eqn:E3.
+    { destruct t1 as [|b1 [|b2 t3]]; try discriminate. split_andb.
+      apply okc_lead; [lead_ge|]. do 2 (apply okc_skip_ge; [cont_ge|]). apply okc_weaken. apply IH. assumption. }
+    destruct (b0 =? 237) eqn:E4.
+    { destruct t1 as [|b1 [|b2 t3]]; try discriminate. split_andb.
+      apply okc_lead; [lead_ge|]. do 2 (apply okc_skip_ge; [cont_ge|]). apply okc_weaken. apply IH. assumption. }
+    destruct (b0 =? 240) eqn:E5.
+    { destruct t1 as [|b1 [|b2 [|b3 t4]]]; try discriminate. split_andb.
+      apply okc_lead; [lead_ge|]. do 3 (apply okc_skip_ge; [cont_ge|]). apply okc_weaken. apply IH. assumption. }
+    destruct (in_range 241 243 b0) eqn:E6.
+    { destruct t1 as [|b1 [|b2 [|b3 t4]]]; try discriminate. split_andb.
+      apply okc_lead; [lead_ge|]. do 3 (apply okc_skip_ge; [cont_ge|]). apply okc_weaken. apply IH. assumption. }
+    destruct (b0 =? 244) eqn:E7; [|discriminate].
+    destruct t1 as [|b1 [|b2 [|b3 t4]]]; try discriminate. split_andb.
+    apply okc_lead; [lead_ge|]. do 3 (apply okc_skip_ge; [cont_ge|]). apply okc_weaken. apply IH. assumption.
+Qed.
+
+Theorem valid_utf8_lines_ok (t : text) : valid_utf8 t = true -> lines_ok t = true.
+Proof.
+  intros H. unfold lines_ok, split_lines. apply okc_lines; [|reflexivity].
+  apply (valid_okc (length t) t H).
+Qed.
+
+Corollary sm_stream_full_reassembles_utf8 (t : text) (m : smap) :
+  valid_utf8 t = true ->
+  sorted_by pos_le (decode_mappings (sm_mappings m)) = true ->
+  reassembles (fst (sm_stream_full t m)) t = true.
+Proof. intros H. apply sm_stream_full_reassembles_partial. apply valid_utf8_lines_ok. exact H. Qed.
+
+(* ------------------------------------------------------------------ *)
+(* the checker's domain (`map_consistent`) implies sorted + segs_ok      *)
+(* ------------------------------------------------------------------ *)
+Lemma strip_len (line : text) :
+  len (if ends_with_nl line then removelast line else line) = blen line.
+Proof.
+  unfold blen. destruct (ends_with_nl line) eqn:E; [|reflexivity].
+  destruct line as [|x line]; [discriminate|].
+  destruct (exists_last (l := x :: line)) as [l' [y Hy]]; [discriminate|].
+  rewrite Hy, removelast_last, slen_app. change (len [y]) with 1. lia.
+Qed.
+
+Lemma line_contents_nth t L line : line_at (split_lines t) L = Some line ->
+  nth_opt (line_contents t) (L - 1) = Some (if ends_with_nl line then removelast line else line).
+Proof.
+  intros H. apply line_at_some in H. destruct H as [H1 [H2 H3]].
+  unfold line_contents, nth_opt in *. rewrite nth_error_app1.
+  - apply (map_nth_error (fun l : text => if ends_with_nl l then removelast l else l)). exact H3.
+  - rewrite map_length. unfold len in H2. lia.
+Qed.
+
+Lemma is_position_Vb t L C : is_position t L C = true ->
+  match line_at (split_lines t) L with Some line => C <=? blen line | None => true end = true.
+Proof.
+  intros H. destruct (line_at (split_lines t) L) as [line|] eqn:E; [|reflexivity].
+  unfold is_position in H. pose proof (line_at_some _ _ _ E) as [H1 _].
+  replace (L =? 0) with false in H by (symmetry; apply N.eqb_neq; lia).
+  rewrite (line_contents_nth t L line E), strip_len in H. exact H.
+Qed.
+
+Lemma positions_segs_ok t ms :
+  forallb (fun mp => is_position t (g_line mp) (g_col mp)) ms = true -> segs_ok t ms = true.
+Proof.
+  unfold segs_ok. rewrite !forallb_forall. intros H mp Hmp. apply is_position_Vb. apply H. exact Hmp.
+Qed.
+
+Lemma segs_inside_positions t m ms : segs_inside t m ms = true ->
+  forallb (fun mp => is_position t (g_line mp) (g_col mp)) ms = true.
+Proof.
+  induction ms as [|mp ms IH]; [reflexivity|]. cbn [segs_inside forallb]. intros H.
+  apply andb_true_iff in H. destruct H as [H H3]. apply andb_true_iff in H. destruct H as [H1 _].
+  rewrite H1, (IH H3). reflexivity.
+Qed.
+
+Lemma sorted_lt_le ms : sorted_by pos_lt ms = true -> sorted_by pos_le ms = true.
+Proof.
+  induction ms as [|a ms IH]; [reflexivity|]. destruct ms as [|b ms']; [reflexivity|].
+  cbn [sorted_by]. intros H. apply andb_true_iff in H. destruct H as [H1 H2].
+  apply andb_true_iff. split; [|apply IH; exact H2].
+  unfold pos_lt in H1. unfold pos_le. apply orb_true_iff in H1. apply orb_true_iff.
+  destruct H1 as [H1|H1]; [left; exact H1|right].
+  apply andb_true_iff in H1. destruct H1 as [E1 E2]. apply andb_true_iff. split; [exact E1|].
+  apply N.ltb_lt in E2. apply N.leb_le. lia.
+Qed.
+
+Theorem map_consistent_ok t m : map_consistent t m = true ->
+  sorted_by pos_le (decode_mappings (sm_mappings m)) = true /\
+  segs_ok t (decode_mappings (sm_mappings m)) = true.
+Proof.
+  unfold map_consistent. intros H. apply andb_true_iff in H. destruct H as [H _].
+  apply andb_true_iff in H. destruct H as [H1 H2]. split; [apply sorted_lt_le; exact H1|].
+  apply positions_segs_ok. apply (segs_inside_positions t m). exact H2.
+Qed.
+
+(* ------------------------------------------------------------------ *)
 (* counterexamples to the unrestricted statements                      *)
 (* ------------------------------------------------------------------ *)
 Definition cex_map (s : text) : smap := mkSmap None s [] [] [] None None.
@@ -1143,7 +1335,10 @@ Proof. vm_compute. reflexivity. Qed.
 
 Print Assumptions sm_stream_full_reassembles_partial.
 Print Assumptions sm_stream_full_reassembles_ascii.
+Print Assumptions sm_stream_full_reassembles_utf8.
 Print Assumptions sm_stream_full_positioned_partial.
 Print Assumptions sm_stream_lines_full_reassembles.
 Print Assumptions sm_stream_lines_full_positioned.
 Print Assumptions sm_stream_end.
+Print Assumptions valid_utf8_lines_ok.
+Print Assumptions map_consistent_ok.
